@@ -54,6 +54,25 @@ def run(ctx):
         g = c02.eval_all(sess, int(r[4]), env, [])
         return g[1] if g[0] == 'ok' else None
     markers.key_table_battery(ctx, parse_eval)
+    # grammatical shapes the random derivations reach only by luck: a quoted string holding the other kind of quote, any white space
+    # between `not` and `in`, operators glued to quotes, every comparison operator once
+    FIXED = [("numpy>=1.0 ; platform_version == \"it's\"", "platform_version == \"it's\""), ("numpy [extra1] (>=1.0) ; os_name != 'say \"hi\"'", "os_name != 'say \"hi\"'"),
+             ("numpy;\"it's\"==platform_version", "platform_version == \"it's\""), ("numpy ; os_name not\tin 'nt posix'", "os_name not in 'nt posix'"),
+             ("numpy (>=1.0) ; python_version not\tin '3.8 3.9'", "python_version not in '3.8 3.9'"), ("numpy ; 'win' not\t in sys_platform and extra == 'a'", "'win' not in sys_platform and extra == 'a'"),
+             ("numpy ; 'it\"s' in platform_version or \"it's\" not  in platform_version", "'it\"s' in platform_version or \"it's\" not in platform_version"),
+             ("numpy;python_version<'3.9'and python_version>='3.7'or python_version~='3.10.0'", "python_version < '3.9' and python_version >= '3.7' or python_version ~= '3.10.0'"),
+             ("numpy ; python_full_version<='3.9' and implementation_version>'3' and os_name!='a' and sys_platform<'b'", "python_full_version <= '3.9' and implementation_version > '3' and os_name != 'a' and sys_platform < 'b'")]
+    for text, mtext in FIXED:
+        ctx.evaluations += 1
+        ctx.oracle_cases += 1
+        r, io, m = reqmodel.compare_req(ctx, sess, rm, text, True, None)
+        if io[0] != 'ok':
+            ctx.failure('the grammatical requirement %r is rejected by Requirement::<VerbatimUrl>::from_str: %s' % (text, io[1:4] if io[0] == 'err' else io),
+                        {'entry': 'Requirement::<VerbatimUrl>::from_str', 'input': text})
+            continue
+        mreg, mr = sess.parse(mtext)
+        if mreg is None or dump(sess.dumps[mreg]) != dump(r[5]):
+            ctx.failure('the marker of %r is not the marker denoted by %r' % (text, mtext), {'entry': 'Requirement::<VerbatimUrl>::from_str', 'input': text})
     for n in range(n_der):
         d = reqgen.gen_derivation(ctx.rng)
         canon_marker = reqgen.canonical_marker(ctx.rng, d)
